@@ -119,3 +119,172 @@ Section Resume.
   Definition interrupted (k : nat) (inputs : list Z) (st : list (Z * Z)) : list (Z * Z) :=
     apply_to (firstn k (processed inputs st)) st.
 End Resume.
+
+(** ---------- exception classes and the handler set of atomic_write ----------
+    [_get_fileobj] (runs inside __enter__) and [__exit__] each have ONE
+    except-clause that removes the temporary directory and re-raises.  Which
+    exception classes those clauses name decides whether a failure is cleaned
+    up.  The classes are read from the source text by the driver (fail-closed)
+    and passed in as [handlers]; nothing below assumes them. *)
+Inductive exc := EOS | EValue | EAttr | EOther | EBase.
+(* EOS: OSError family; EValue: ValueError; EAttr: AttributeError; EOther: any other
+   subclass of Exception (RuntimeError ...); EBase: KeyboardInterrupt / SystemExit *)
+
+Inductive hbase := BBaseException | BException | BOSError | BValueError | BAttributeError | BOtherName.
+
+Definition subclass (e : exc) (b : hbase) : bool :=
+  match b, e with
+  | BBaseException, _ => true
+  | BException, EBase => false
+  | BException, _ => true
+  | BOSError, EOS => true
+  | BValueError, EValue => true
+  | BAttributeError, EAttr => true
+  | _, _ => false
+  end.
+
+Definition hclause := list hbase.     (* `except (A, B):`; a bare `except:` is [BBaseException] *)
+Definition catches (h : hclause) (e : exc) : bool := existsb (subclass e) h.
+
+Record handlers := { h_enter : hclause; h_exit : hclause }.
+
+(** the failures the property calls "handled": everything that is an Exception *)
+Definition handled_classes : list exc := [EOS; EValue; EAttr; EOther].
+Definition covers_handled (H : handlers) : bool :=
+  forallb (fun e => catches (h_enter H) e && catches (h_exit H) e) handled_classes.
+
+Section ClassFaults.
+  Variable H : handlers.
+
+  (** operation [o] raises an exception of class [e] instead of executing:
+      - __init__ (Mkdtemp): nothing exists yet;
+      - __enter__ (OpenTmp): the except-clause of _get_fileobj, if it names the class;
+      - the body (Write): the with-statement calls __exit__(exc) whatever the class;
+      - inside __exit__ (Close, commit, Rmtree): its except-clause, if it names the class. *)
+  Definition handler_after_cls (e : exc) (o : op) : list op :=
+    match o with
+    | Mkdtemp => []
+    | OpenTmp => if catches (h_enter H) e then [Rmtree] else []
+    | Write _ | UnlinkDestOnError => [Close; Rmtree]
+    | _ => if catches (h_exit H) e then [Rmtree] else []
+    end.
+
+  Definition run_fault_cls (e : exc) (k : nat) (p : list op) (s : fs) : fs :=
+    match nth_error p k with
+    | Some o => run (handler_after_cls e o) (run (firstn k p) s)
+    | None => run p s
+    end.
+End ClassFaults.
+
+(** ---------- zip targets ----------
+    A `.zip` destination: the file object handed to the writer is a second
+    atomic_write (open_zip) whose temporary directory lives inside the first
+    one's; it opens its file lazily, and on close appends the staged plain file
+    to a TEMPORARY archive (ZipFile(tmp.zip, "a")) which the outer object then
+    moves over the destination with one replace.
+    An explicit [in_zip] archive (or a regression that commits a `.zip`
+    destination the same way) is appended to IN PLACE: [zprog_append].
+    ZipFile(path, "a") issues open(path, "r+") and, when that fails because the
+    file is absent, open(path, "w+") which creates an EMPTY file (not yet an
+    archive); the member and the directory are written after the staged file has
+    been opened for reading. *)
+Inductive arch := Garbage | Members (ms : list content).
+Inductive ztarget := Staged | Dest.
+
+Record zfs := {
+  zdest : option arch;        (* the destination archive *)
+  zouter : bool;              (* outer temporary directory *)
+  zstaged : option arch;      (* temporary archive inside it *)
+  zinner : bool;              (* inner temporary directory *)
+  zfile : option content }.   (* the staged plain file *)
+
+Inductive zop :=
+| ZMkOuter | ZMkInner | ZOpenFile | ZWrite (c : content) | ZClose
+| ZTryOpen (t : ztarget)      (* open(archive, "r+") *)
+| ZCreate (t : ztarget)       (* open(archive, "w+"): only issued when the archive is absent *)
+| ZAdd (t : ztarget)          (* open(staged file, "r"); member + directory written, archive closed *)
+| ZRmInner | ZReplace | ZRmOuter.
+
+Definition zget (s : zfs) (t : ztarget) := match t with Staged => zstaged s | Dest => zdest s end.
+Definition zset (s : zfs) (t : ztarget) (a : option arch) : zfs :=
+  match t with
+  | Staged => {| zdest := zdest s; zouter := zouter s; zstaged := a; zinner := zinner s; zfile := zfile s |}
+  | Dest => {| zdest := a; zouter := zouter s; zstaged := zstaged s; zinner := zinner s; zfile := zfile s |}
+  end.
+
+Definition zexec (s : zfs) (o : zop) : zfs :=
+  match o with
+  | ZMkOuter => {| zdest := zdest s; zouter := true; zstaged := None; zinner := false; zfile := None |}
+  | ZMkInner => {| zdest := zdest s; zouter := zouter s; zstaged := zstaged s; zinner := true; zfile := zfile s |}
+  | ZOpenFile => {| zdest := zdest s; zouter := zouter s; zstaged := zstaged s; zinner := zinner s; zfile := Some [] |}
+  | ZWrite c => {| zdest := zdest s; zouter := zouter s; zstaged := zstaged s; zinner := zinner s;
+                   zfile := match zfile s with Some t => Some (t ++ c) | None => None end |}
+  | ZClose | ZTryOpen _ => s
+  | ZCreate t => zset s t (Some Garbage)
+  | ZAdd t =>
+      match zfile s with
+      | Some c => zset s t (Some (Members (match zget s t with Some (Members ms) => ms ++ [c] | _ => [c] end)))
+      | None => s
+      end
+  | ZRmInner => {| zdest := zdest s; zouter := zouter s; zstaged := zstaged s; zinner := false;
+                   zfile := if zinner s then None else zfile s |}
+  | ZReplace =>
+      match zstaged s with
+      | Some a => {| zdest := Some a; zouter := zouter s; zstaged := None; zinner := zinner s; zfile := zfile s |}
+      | None => s
+      end
+  | ZRmOuter => {| zdest := zdest s; zouter := false; zstaged := None; zinner := false; zfile := None |}
+  end.
+
+Definition zrun (p : list zop) (s : zfs) : zfs := fold_left zexec p s.
+Definition zinit (old : option arch) : zfs :=
+  {| zdest := old; zouter := false; zstaged := None; zinner := false; zfile := None |}.
+Definition zno_tmp (s : zfs) : bool :=
+  negb (zouter s) && negb (zinner s)
+  && match zstaged s with None => true | _ => false end
+  && match zfile s with None => true | _ => false end.
+
+(** `.zip` destination, present code: temporary archive, then one replace *)
+Definition zprog_staged (chunks : list content) : list zop :=
+  [ZMkOuter; ZMkInner; ZOpenFile] ++ map ZWrite chunks
+  ++ [ZClose; ZTryOpen Staged; ZCreate Staged; ZAdd Staged; ZRmInner; ZReplace; ZRmOuter].
+
+(** archive appended to in place ([present] = the archive exists beforehand) *)
+Definition zprog_append (present : bool) (chunks : list content) : list zop :=
+  [ZMkOuter; ZOpenFile] ++ map ZWrite chunks
+  ++ [ZClose; ZTryOpen Dest] ++ (if present then [] else [ZCreate Dest]) ++ [ZAdd Dest; ZRmOuter].
+
+Definition is_present (old : option arch) : bool := match old with Some _ => true | None => false end.
+(** what "the new content" of the archive is: a `.zip` destination holds exactly the
+    new member; an explicit archive holds its previous members and the new one *)
+Definition old_members (old : option arch) : list content :=
+  match old with Some (Members ms) => ms | _ => [] end.
+
+(** ---------- resume with not-completed records ----------
+    A record is completed (true) or not-completed (false).  apply_to skips an
+    input only when a COMPLETED record with its id exists; an input that ended
+    not-completed is processed again and its record written again. *)
+Section ResumeNC.
+  Variable g : Z -> Z * bool.     (* the composed app: content code, completed? *)
+
+  Definition rec := (Z * (Z * bool))%type.
+  Definition has_c (st : list rec) (i : Z) : bool :=
+    existsb (fun p => (fst p =? i) && snd (snd p)) st.
+
+  Fixpoint set_rec (st : list rec) (i : Z) (v : Z * bool) : list rec :=
+    match st with
+    | [] => [(i, v)]
+    | p :: t => if fst p =? i then (i, v) :: t else p :: set_rec t i v
+    end.
+
+  Definition step_nc (st : list rec) (i : Z) : list rec :=
+    if has_c st i then st else set_rec st i (g i).
+
+  Definition apply_nc (inputs : list Z) (st : list rec) : list rec := fold_left step_nc inputs st.
+
+  Definition processed_nc (inputs : list Z) (st : list rec) : list Z :=
+    filter (fun i => negb (has_c st i)) inputs.
+
+  Definition interrupted_nc (k : nat) (inputs : list Z) (st : list rec) : list rec :=
+    apply_nc (firstn k (processed_nc inputs st)) st.
+End ResumeNC.
